@@ -123,6 +123,15 @@ Theorem C02_rdiv_int_round : forall n t prec r, regular t -> 0 < prec ->
 Proof. exact mpf_rdiv_int_round. Qed.
 Print Assumptions C02_rdiv_int_round.
 
+(* "exact when it fits": RND is the identity on representable values, so every theorem above of the form
+   rv result = RND r prec (exact value) returns the exact value whenever it is representable with prec bits *)
+From MP Require Import Proofs.IvBc.
+Theorem C02_exact_when_representable : forall r p x, 0 < p -> generic_format radix2 (FLX_exp p) x -> RND r p x = x.
+Proof. exact RND_id_format. Qed.
+Theorem C02_sqrt_exact_square : forall s prec r, regular s -> msign s = 0 -> 0 < prec ->
+  generic_format radix2 (FLX_exp prec) (sqrt (rv s)) -> exists y, mpf_sqrt s prec r = Ok y /\ rv y = sqrt (rv s).
+Proof. exact sqrt_exact_square. Qed.
+
 (* non-vacuity: 255 rounded to 4 bits to nearest is 256 (carry out of the top bit) *)
 Example C02_witness : normalize 0 255 0 (bitcount 255) 4 RN = Mpf 0 1 8 1.
 Proof. reflexivity. Qed.
